@@ -66,6 +66,15 @@ func confTagOf(m cemi.Message) int {
 
 var confSeq int32
 
+// mcastAddr: the multicast group and port of one case. Go binds a socket that listens on a multicast address to
+// the wildcard address, so the kernel hands it every multicast datagram for that *port*, whatever the group, as long
+// as some socket on the host has joined the group. The port therefore has to be unique among the test processes
+// running at the same time (it is a function of the process id alone; the processes alive at one time lie within a
+// window of pids far narrower than the modulus); the group varies per case and per harness (second octet).
+func mcastAddr(second byte, pid, k int) *net.UDPAddr {
+	return &net.UDPAddr{IP: net.IPv4(239, second, byte(1+pid%250), byte(1+k%250)), Port: 10000 + pid%22000}
+}
+
 func confRouter(p confPlan) (*common.Fail, string) {
 	probeMulticast()
 	if !mcastOK {
@@ -73,7 +82,7 @@ func confRouter(p confPlan) (*common.Fail, string) {
 	}
 	k := int(atomic.AddInt32(&confSeq, 1))
 	pid := os.Getpid()
-	grp := &net.UDPAddr{IP: net.IPv4(239, 254, byte(1+pid%250), byte(1+k%250)), Port: 21000 + (pid*17+k)%20000}
+	grp := mcastAddr(254, pid, k)
 	// the peer: a member of the group that also talks to it
 	pc, err := net.ListenUDP("udp4", grp)
 	if err != nil {
